@@ -13,6 +13,7 @@ package client
 import (
 	"encoding/json"
 	"regexp"
+	"strconv"
 	"strings"
 	"sync"
 	"time"
@@ -408,10 +409,23 @@ func getBool(v any) (bool, error) {
 	}
 }
 
+// fastjsonFloat64 returns the float64 denoted by a JSON number.
+//
+// fastjson's own conversion is not correctly rounded for every input (it can be 1 ulp off,
+// e.g. for "4.26272595972195e+31"), which would make the stored value and the docID of a
+// document built from JSON differ from the same document built from a map or a GraphQL input.
+func fastjsonFloat64(val *fastjson.Value) (float64, error) {
+	if val.Type() != fastjson.TypeNumber {
+		// let fastjson produce its usual type mismatch error
+		return val.Float64()
+	}
+	return strconv.ParseFloat(val.String(), 64)
+}
+
 func getFloat64(v any) (float64, error) {
 	switch val := v.(type) {
 	case *fastjson.Value:
-		return val.Float64()
+		return fastjsonFloat64(val)
 	case int:
 		return float64(val), nil
 	case int32:
@@ -430,7 +444,7 @@ func getFloat64(v any) (float64, error) {
 func getFloat32(v any) (float32, error) {
 	switch val := v.(type) {
 	case *fastjson.Value:
-		f64, err := val.Float64()
+		f64, err := fastjsonFloat64(val)
 		if err != nil {
 			return 0, err
 		}
